@@ -624,7 +624,7 @@ def run(ctx):
         ctx.exhaustive = True
     ctx.sweep(cases, check_case)
     ctx.extra["sweep_cases"] = len(cases)
-    ctx.hyp(strategy, check_case, max_examples=ctx.pick(1500, 40000), tag="c12")
+    ctx.hyp(strategy, check_case, max_examples=ctx.pick(1500, 30000), tag="c12")
 
 
 def replay(case):
